@@ -532,6 +532,11 @@ func (server *Server) listen(sock socket.Socket, address string, New NewServerCo
 					if svrctx.sched != nil {
 						svrctx.sched.Close()
 					}
+					// as in ServeCodec: the connection is gone, release the handlers
+					// blocked on its streams
+					for _, ctx := range svrctx.streams {
+						ctx.stream.Close()
+					}
 					if svrctx.readStream != nil {
 						svrctx.readStream.Close()
 					}
